@@ -164,7 +164,7 @@ impl TxProposal {
             .try_fold(Coin::zero(), |acc, ada| acc.checked_add(&ada))
     }
 
-    pub(super) fn get_need_ada(&self) -> Result<Coin, JsError> {
+    pub(crate) fn get_need_ada(&self) -> Result<Coin, JsError> {
         let need_ada = self.get_total_ada_for_ouputs()?.checked_add(&self.fee)?;
         Ok(need_ada
             .checked_sub(&self.total_ada)
